@@ -57,6 +57,8 @@ type Net struct {
 	Root    string
 	ownRoot bool
 	Stats   map[string]int
+	AllowRestarts  bool
+	RestartErrs    []string
 	GossipEvidence bool
 	evSent         map[string]bool
 	EvRejects      []string // a correct node's pool rejected evidence another correct node holds
@@ -684,6 +686,13 @@ func (net *Net) AdvStep(r *rand.Rand, adv *Adversary) {
 		return
 	}
 	x := r.Intn(100)
+	if net.AllowRestarts && r.Intn(120) == 0 {
+		j := alive[r.Intn(len(alive))]
+		if err := net.Restart(j.Idx); err != nil {
+			net.RestartErrs = append(net.RestartErrs, fmt.Sprintf("node %d: %v", j.Idx, err))
+		}
+		return
+	}
 	switch {
 	case x < 68: // deliver one (or a few) messages to a random node
 		j := alive[r.Intn(len(alive))]
@@ -810,3 +819,30 @@ func (net *Net) Dump() []string {
 
 // FireNode fires the armed timeout of one node.
 func (net *Net) FireNode(n *Node) bool { return net.fire(n) }
+
+
+// Restart stops node i cleanly (consensus, pool, blockchain flush) and starts a new incarnation on the same
+// database and WAL through the real OnStart/catchupReplay.
+func (net *Net) Restart(i int) error {
+	old := net.Nodes[i]
+	if old == nil || old.Dead {
+		return nil
+	}
+	old.Stop(true)
+	o := old.Opts
+	o.MemWAL = old.mem
+	tr := &Trace{}
+	tr.add(Ev{Kind: EvRestart})
+	n, err := BuildNode(i, net.Gen, old.Key, old.Base, tr, nil, o)
+	if err != nil {
+		return fmt.Errorf("rebuild: %w", err)
+	}
+	net.Nodes[i] = n
+	net.note("restart %d", i)
+	net.Stats["restarts"]++
+	if err := n.Start(); err != nil {
+		return fmt.Errorf("start: %w", err)
+	}
+	net.observe(n)
+	return nil
+}
